@@ -74,6 +74,7 @@ package crypto
 //@ cfunc G2_check_log pure props C07 C09
 //@ requires x != nil && y != nil
 //@ assigns nothing
+//@ ensures [share-matches-public-share] result == e2Eq(g2mulgen(*x), *y)
 
 //@ cfunc G2_mult_gen_to_affine props C09 C12
 //@ requires res != nil && expo != nil
@@ -111,9 +112,10 @@ package crypto
 //@ requires res != nil && p != nil
 //@ assigns *res
 
-//@ cfunc Fr_polynomial_image_write props C06 C09
-//@ requires degree >= 0 && valid(out, 32) && valid(a, degree+1) && (y == nil || valid(y, 1))
+//@ cfunc Fr_polynomial_image_write props C06 C07 C09
+//@ requires degree >= 0 && valid(out, 32) && valid(a, degree+1) && (y == nil || valid(y, 1) && obj(y) != obj(out))
 //@ assigns out[0:32], y[0:1]
+//@ ensures [public-image-is-the-generator-times-the-written-share] y != nil ==> e2Eq(g2mulgen(be32(out[0:32])), *y)
 
 //@ cfunc map_bytes_to_Fr props C12 C09
 //@ requires a != nil && in_len >= 0 && valid(in, in_len)
@@ -190,9 +192,10 @@ package crypto
 //@ requires len(A) >= 1 && len(dest) >= 96*len(A)
 //@ assigns dest[0:96*len(A)]
 
-//@ func frPolynomialImage mode int props C06 C09
-//@ requires len(dest) >= 32 && len(a) >= 1 && (y == nil || valid(y, 1))
+//@ func frPolynomialImage mode int props C06 C07 C09
+//@ requires len(dest) >= 32 && len(a) >= 1 && (y == nil || valid(y, 1) && obj(y) != obj(dest))
 //@ assigns dest[0:32], y[0:1]
+//@ ensures [public-image-is-the-generator-times-the-written-share] y != nil ==> e2Eq(g2mulgen(be32(dest[0:32])), *y)
 
 //@ func E2PolynomialImages mode int props C07 C09
 //@ requires 1 <= len(out) && len(out) <= 255 && len(A) >= 1
@@ -252,6 +255,7 @@ package crypto
 // DKG common part
 
 //@ heaptype complaint
+//@ heaptype feldmanVSSstate
 
 // package-level size variables (assigned once, by their declarations)
 //@ global shareSize == 32 && verifVectorSize == 96 && complaintSize == 1 && complaintAnswerSize == 33
@@ -301,34 +305,40 @@ package crypto
 //@ ensures [reject] (size < 2 || size > 254 || myIndex >= size || dealerIndex >= size || myIndex < 0 || dealerIndex < 0 || threshold >= size || threshold < 1) ==> result0 == nil && iserr(result1, *invalidInputsError)
 //@ ensures [accept] !(size < 2 || size > 254 || myIndex >= size || dealerIndex >= size || myIndex < 0 || dealerIndex < 0 || threshold >= size || threshold < 1 || processor == nil) ==> result1 == nil && typeis(result0, *feldmanVSSstate) && vssInv(unbox(result0, *feldmanVSSstate)) && !unbox(result0, *feldmanVSSstate).running && !unbox(result0, *feldmanVSSstate).validKey
 
-//@ func (*feldmanVSSstate).verifyShare mode int props C08 C09
+// the participant's private share matches its public share (the G2 point computed from the dealer's vector)
+//@ pred shareOK(s) = e2Eq(g2mulgen(s.x), s.y[s.myIndex])
+//@ func (*feldmanVSSstate).verifyShare mode int props C08 C07 C09
 //@ requires vssShape(s) && len(s.y) == s.size
 //@ assigns nothing
+//@ ensures [share-matches-public-share] result == shareOK(s)
 
 //@ func (*feldmanVSSstate).computePublicKeys mode int props C07 C09
 //@ requires vssShape(s) && len(s.y) == s.size && len(s.vA) == s.threshold+1
 //@ assigns s.y[:]
 
-//@ func (*feldmanVSSstate).Start mode int props C10 C09
+//@ func (*feldmanVSSstate).Start mode int props C07 C10 C09
 //@ requires vssCore(s)
 //@ assigns *s, s.running, ghost(s.processor)
 //@ ensures [reject-running] old(s.running) ==> iserr(result, *dkgInvalidStateTransitionError) && nothingAssigned()
 //@ ensures [started] !old(s.running) && result == nil ==> s.running
 //@ ensures [failed-start-leaves-idle] !old(s.running) && result != nil ==> !s.running
 //@ ensures [dealer-ready] !old(s.running) && s.running && s.myIndex == s.dealerIndex ==> len(s.a) == s.threshold+1 && s.vAReceived && s.xReceived && len(s.vA) == s.threshold+1 && len(s.y) == s.size
+//@ ensures [dealer-share-matches] !old(s.running) && s.running && s.myIndex == s.dealerIndex ==> shareOK(s)
 //@ ensures [non-dealer-untouched] !old(s.running) && s.myIndex != s.dealerIndex ==> unchanged(s.vAReceived) && unchanged(s.xReceived) && unchanged(s.validKey) && unchanged(s.vA) && unchanged(s.y) && unchanged(s.a)
 //@ ensures [failed-start-untouched] !old(s.running) && result != nil ==> unchanged(s.vAReceived) && unchanged(s.xReceived) && unchanged(s.validKey)
 //@ ensures [inv] vssCore(s) && unchanged(s.dkgCommon) && unchanged(s.dealerIndex) && (old(vssInv(s)) ==> vssInv(s))
 
-//@ func (*feldmanVSSstate).generateShares mode int props C06 C09
+//@ func (*feldmanVSSstate).generateShares mode int props C07 C06 C09
 //@ requires vssCore(s) && s.running && s.myIndex == s.dealerIndex
 //@ assigns *s, s.processor.nPrivate, s.processor.nBroadcast, s.processor.sentComplaint[:], s.processor.sentAnswer[:], s.processor.sentVector[:]
 //@ ensures [ok] result == nil ==> s.vAReceived && s.xReceived && s.validKey && len(s.vA) == s.threshold+1 && len(s.y) == s.size && len(s.a) == s.threshold+1
+//@ ensures [dealer-share-matches] result == nil ==> shareOK(s)
 //@ ensures [error] result != nil ==> unchanged(s.vAReceived) && unchanged(s.xReceived) && unchanged(s.validKey) && unchanged(s.running) && vssCore(s)
 //@ ensures unchanged(s.dkgCommon) && unchanged(s.dealerIndex)
 //@ loop 1 invariant 0 <= i && i <= s.threshold+1 && len(s.vA) == s.threshold+1 && len(s.a) == s.threshold+1 && len(s.y) == s.size && fresh(s.vA) && fresh(s.a) && fresh(s.y) && vssShape(s) && unchanged(s.dkgCommon) && unchanged(s.dealerIndex)
 //@ loop 1 assigns s.vA[:]
 //@ loop 2 invariant 1 <= i && i <= s.size+1 && len(s.vA) == s.threshold+1 && len(s.a) == s.threshold+1 && len(s.y) == s.size && fresh(s.vA) && fresh(s.a) && fresh(s.y) && vssShape(s) && unchanged(s.dkgCommon) && unchanged(s.dealerIndex)
+//@ loop 2 invariant [own-share-done] i > s.myIndex + 1 ==> shareOK(s)
 //@ loop 2 assigns s.y[:], s.x, s.processor.nPrivate
 
 //@ func (*feldmanVSSstate).End mode int props C10 C08 C07 C09
@@ -410,23 +420,29 @@ package crypto
 //@ pred complaintsOK(s) = forall(k, 0, 256, has(s.complaints, k) ==> k < s.size && s.complaints[k] != nil && typed(s.complaints[k]) && ownedby(s.complaints[k], s.complaints) && keyof(s.complaints[k]) == k)
 //@ pred ownComplaint(s) = has(s.complaints, s.myIndex) && s.complaints[s.myIndex].received
 //@ pred qualPhase(s) = (s.complaintsTimeout ==> s.sharesTimeout) && (s.vAReceived && !s.disqualified ==> len(s.vA) == s.threshold+1 && len(s.y) == s.size) && (s.running && s.myIndex == s.dealerIndex ==> len(s.a) == s.threshold+1) && (s.sharesTimeout && !s.disqualified ==> s.vAReceived) && (ownComplaint(s) ==> s.xReceived || s.sharesTimeout)
-//@ pred qualInv(s) = qualShape(s) && complaintsOK(s) && qualPhase(s)
+// share consistency (C07, per participant): whenever the vector is in and the dealer is not disqualified, either this
+// participant's share matches its public share, or its own complaint is still unanswered; an answered own complaint
+// has replaced the share by the published answer; after the shares timeout a share was received or complained about
+//@ pred ownAnswered(s) = ownComplaint(s) && s.complaints[s.myIndex].answerReceived
+//@ pred shareInv(s) = (s.vAReceived && !s.disqualified && ownAnswered(s) ==> shareOK(s)) && (!s.disqualified && ownAnswered(s) ==> s.x == s.complaints[s.myIndex].answer) && (s.vAReceived && !s.disqualified && !ownComplaint(s) && s.xReceived ==> shareOK(s)) && (s.sharesTimeout && !s.disqualified && !ownComplaint(s) ==> s.xReceived)
+//@ pred qualInv0(s) = qualShape(s) && complaintsOK(s) && qualPhase(s)
+//@ pred qualInv(s) = qualInv0(s) && shareInv(s)
 // what a message handler may never touch: the phase of the instance
 //@ pred phaseKept(s) = unchanged(s.running) && unchanged(s.sharesTimeout) && unchanged(s.complaintsTimeout) && unchanged(s.feldmanVSSstate) && unchanged(s.dkgCommon) && unchanged(s.dealerIndex) && unchanged(s.size) && unchanged(s.threshold) && unchanged(s.myIndex) && unchanged(s.processor) && (old(s.disqualified) ==> s.disqualified)
 
-//@ func (*feldmanVSSQualState).init mode int props C10
+//@ func (*feldmanVSSQualState).init mode int props C07 C10
 //@ requires s != nil && s.feldmanVSSstate != nil && s.dkgCommon != nil && obj(s.dkgCommon) != obj(s.feldmanVSSstate) && obj(s) != obj(s.feldmanVSSstate) && obj(s) != obj(s.dkgCommon)
 //@ assigns s.running, s.y, s.xReceived, s.vAReceived, s.complaints
 //@ ensures !s.running && !s.xReceived && !s.vAReceived && len(s.y) == 0 && s.complaints != nil && fresh(s.complaints) && len(s.complaints) == 0 && forall(k, 0, 256, !has(s.complaints, k))
 
-//@ func NewFeldmanVSSQual mode int props C10 C09
+//@ func NewFeldmanVSSQual mode int props C07 C10 C09
 //@ assigns nothing
 //@ ensures [reject] (size < 2 || size > 254 || myIndex >= size || dealerIndex >= size || myIndex < 0 || dealerIndex < 0 || threshold >= size || threshold < 1) ==> result0 == nil && iserr(result1, *invalidInputsError)
 //@ ensures [accept] !(size < 2 || size > 254 || myIndex >= size || dealerIndex >= size || myIndex < 0 || dealerIndex < 0 || threshold >= size || threshold < 1 || processor == nil) ==> result1 == nil && typeis(result0, *feldmanVSSQualState) && qualShape(unbox(result0, *feldmanVSSQualState)) && !unbox(result0, *feldmanVSSQualState).running && !unbox(result0, *feldmanVSSQualState).sharesTimeout && !unbox(result0, *feldmanVSSQualState).complaintsTimeout && !unbox(result0, *feldmanVSSQualState).disqualified
 
 // Start is promoted from feldmanVSSstate (see there: its [dealer-ready] clause is what the Qual invariant needs).
 
-//@ func (*feldmanVSSQualState).NextTimeout mode int props C10 C08 C09
+//@ func (*feldmanVSSQualState).NextTimeout mode int props C07 C10 C08 C09
 //@ requires qualInv(s)
 //@ assigns *s, obj(s.complaints), ghost(s.processor)
 //@ ensures [reject-idle] !old(s.running) ==> iserr(result, *dkgInvalidStateTransitionError) && nothingAssigned()
@@ -437,14 +453,14 @@ package crypto
 //@ ensures [missing-vector-disqualifies] old(s.running) && !old(s.sharesTimeout) && !old(s.vAReceived) ==> s.disqualified
 //@ ensures [too-many-complaints-disqualify] old(s.running) && old(s.sharesTimeout) && !old(s.complaintsTimeout) && old(len(s.complaints)) > s.threshold ==> s.disqualified
 
-//@ func (*feldmanVSSQualState).setSharesTimeout mode int props C08 C09
+//@ func (*feldmanVSSQualState).setSharesTimeout mode int props C07 C08 C09
 //@ requires qualInv(s) && s.running && !s.disqualified && !s.sharesTimeout
 //@ assigns *s, obj(s.complaints), ghost(s.processor)
 //@ ensures s.sharesTimeout && unchanged(s.complaintsTimeout) && unchanged(s.feldmanVSSstate) && unchanged(s.complaints)
 //@ ensures [missing-vector-disqualifies] !old(s.vAReceived) ==> s.disqualified
 //@ ensures [inv] qualInv(s)
 
-//@ func (*feldmanVSSQualState).setComplaintsTimeout mode int props C08 C09
+//@ func (*feldmanVSSQualState).setComplaintsTimeout mode int props C07 C08 C09
 //@ requires qualInv(s) && s.running && !s.disqualified && s.sharesTimeout
 //@ assigns *s, ghost(s.processor)
 //@ ensures s.complaintsTimeout && unchanged(s.sharesTimeout) && unchanged(s.feldmanVSSstate) && unchanged(s.complaints)
@@ -461,13 +477,14 @@ package crypto
 //@ ensures [class] old(s.running && s.sharesTimeout && s.complaintsTimeout) && result3 != nil ==> iserr(result3, *dkgFailureError) && result0 == nil
 //@ ensures [returned-keys-are-the-protocol's] result3 == nil ==> typeis(result0, *prKeyBLSBLS12381) && unbox(result0, *prKeyBLSBLS12381).scalar == s.x && s.x != 0 && typeis(result1, *pubKeyBLSBLS12381) && unbox(result1, *pubKeyBLSBLS12381).point == s.vA[0] && !unbox(result1, *pubKeyBLSBLS12381).isIdentity && pkWF(unbox(result1, *pubKeyBLSBLS12381)) && len(result2) == s.size
 //@ ensures [returned-key-shares-are-the-protocol's] result3 == nil ==> forall(k, 0, s.size, typeis(result2[k], *pubKeyBLSBLS12381) && unbox(result2[k], *pubKeyBLSBLS12381).point == s.y[k] && pkWF(unbox(result2[k], *pubKeyBLSBLS12381)))
+//@ ensures [private-share-matches-public-share] result3 == nil ==> shareOK(s)
 //@ ensures [keys-only-if-qualified] result3 == nil ==> !s.disqualified && forall(k, 0, 256, has(s.complaints, k) && s.complaints[k].received ==> s.complaints[k].answerReceived)
 //@ loop 1 invariant [no-unanswered-so-far] forall(k, 0, 256, visited(k) ==> !(s.complaints[k].received && !s.complaints[k].answerReceived))
 //@ loop 1 invariant !s.disqualified && !s.running
 //@ loop 2 invariant len(y) == s.size && len(s.y) == s.size && fresh(y) && !s.disqualified && !s.running
 //@ loop 2 invariant forall(k, 0, i, typeis(y[k], *pubKeyBLSBLS12381) && typed(unbox(y[k], *pubKeyBLSBLS12381)) && unbox(y[k], *pubKeyBLSBLS12381).point == s.y[k] && pkWF(unbox(y[k], *pubKeyBLSBLS12381)))
 
-//@ func (*feldmanVSSQualState).HandleBroadcastMsg mode int props C10 C08 C09
+//@ func (*feldmanVSSQualState).HandleBroadcastMsg mode int props C07 C10 C08 C09
 //@ requires qualInv(s)
 //@ assigns *s, *s.feldmanVSSstate, obj(s.complaints), owned(s.complaints, complaint), ghost(s.processor)
 //@ ensures [reject-idle] !old(s.running) ==> iserr(result, *dkgInvalidStateTransitionError) && nothingAssigned()
@@ -475,7 +492,7 @@ package crypto
 //@ ensures [accept] old(s.running) && 0 <= orig && orig < s.size ==> result == nil
 //@ ensures [inv] qualInv(s) && phaseKept(s)
 
-//@ func (*feldmanVSSQualState).HandlePrivateMsg mode int props C10 C08 C09
+//@ func (*feldmanVSSQualState).HandlePrivateMsg mode int props C07 C10 C08 C09
 //@ requires qualInv(s)
 //@ assigns *s, *s.feldmanVSSstate, obj(s.complaints), owned(s.complaints, complaint), ghost(s.processor)
 //@ ensures [reject-idle] !old(s.running) ==> iserr(result, *dkgInvalidStateTransitionError) && nothingAssigned()
@@ -483,7 +500,7 @@ package crypto
 //@ ensures [accept] old(s.running) && 0 <= orig && orig < s.size ==> result == nil
 //@ ensures [inv] qualInv(s) && phaseKept(s)
 
-//@ func (*feldmanVSSQualState).ForceDisqualify mode int props C10 C09
+//@ func (*feldmanVSSQualState).ForceDisqualify mode int props C07 C10 C09
 //@ requires qualInv(s)
 //@ assigns s.disqualified
 //@ ensures [reject-idle] !old(s.running) ==> iserr(result, *dkgInvalidStateTransitionError) && nothingAssigned()
@@ -491,12 +508,13 @@ package crypto
 //@ ensures [accept] old(s.running) && 0 <= participant && participant < s.size ==> result == nil && (participant == s.dealerIndex ==> s.disqualified)
 //@ ensures [inv] qualInv(s) && (old(s.disqualified) ==> s.disqualified)
 
-//@ func (*feldmanVSSQualState).receiveShare mode int props C08 C09
+//@ func (*feldmanVSSQualState).receiveShare mode int props C07 C08 C09
 //@ requires qualInv(s) && s.running && !s.disqualified
 //@ assigns *s, *s.feldmanVSSstate, obj(s.complaints), ghost(s.processor)
 //@ ensures [inv-shape] qualShape(s)
 //@ ensures [inv-complaints] complaintsOK(s)
 //@ ensures [inv-phase] qualPhase(s)
+//@ ensures [inv-share] shareInv(s)
 //@ ensures [inv-kept] phaseKept(s)
 
 //@ func (*feldmanVSSQualState).receiveVerifVector mode int props C08 C07 C09
@@ -505,34 +523,40 @@ package crypto
 //@ ensures [inv] qualInv(s) && phaseKept(s)
 //@ ensures [bad-size-disqualifies] old(!s.sharesTimeout && !s.vAReceived && origin == s.dealerIndex && len(data) != 96*(s.threshold+1)) ==> s.disqualified
 //@ ensures [bad-vector-disqualifies] old(!s.sharesTimeout && !s.vAReceived && origin == s.dealerIndex && len(data) == 96*(s.threshold+1) && !g2vecValid(data, s.threshold+1)) ==> s.disqualified
-//@ loop 1 invariant qualInv(s) && phaseKept(s) && !s.disqualified && s.vAReceived && len(s.vA) == s.threshold+1 && len(s.y) == s.size
+//@ loop 1 invariant qualInv0(s) && phaseKept(s) && !s.disqualified && s.vAReceived && len(s.vA) == s.threshold+1 && len(s.y) == s.size
+//@ loop 1 invariant [own-answer-is-the-share] (ownAnswered(s) ==> s.x == s.complaints[s.myIndex].answer) && (s.sharesTimeout && !ownComplaint(s) ==> s.xReceived)
+//@ loop 1 invariant [own-answer-checked-once-visited] visited(s.myIndex) && ownAnswered(s) ==> shareOK(s)
 
-//@ func (*feldmanVSSQualState).buildAndBroadcastComplaint mode int props C08 C09
-//@ requires qualInv(s) && s.running && !s.disqualified
+// (called in the middle of a handler, before the share bookkeeping is consistent again: only the structural invariant is needed)
+//@ func (*feldmanVSSQualState).buildAndBroadcastComplaint mode int props C07 C08 C09
+//@ requires qualInv0(s) && s.running && !s.disqualified
 //@ requires [at-most-one-complaint] !ownComplaint(s)
 //@ assigns obj(s.complaints), ghost(s.processor)
 //@ ensures has(s.complaints, s.myIndex) && fresh(s.complaints[s.myIndex]) && typed(s.complaints[s.myIndex]) && ownedby(s.complaints[s.myIndex], s.complaints) && keyof(s.complaints[s.myIndex]) == s.myIndex && s.complaints[s.myIndex].received && !s.complaints[s.myIndex].answerReceived
 //@ ensures forall(k, 0, 256, k != s.myIndex ==> has(s.complaints, k) == old(has(s.complaints, k)) && s.complaints[k] == old(s.complaints[k]))
 //@ ensures len(s.complaints) == old(len(s.complaints)) + ite(old(has(s.complaints, s.myIndex)), 0, 1)
 //@ ensures [complaints-ok] complaintsOK(s)
+//@ ensures [frame] unchanged(s.feldmanVSSstate) && unchanged(s.dkgCommon) && unchanged(s.disqualified) && unchanged(s.sharesTimeout) && unchanged(s.complaintsTimeout) && unchanged(s.running)
 
-//@ func (*feldmanVSSQualState).buildAndBroadcastComplaintAnswer mode int props C08 C09
+//@ func (*feldmanVSSQualState).buildAndBroadcastComplaintAnswer mode int props C07 C08 C09
 //@ requires qualInv(s) && s.running && s.myIndex == s.dealerIndex && has(s.complaints, complainee)
 //@ requires [answer-once] !s.complaints[complainee].answerReceived
 //@ assigns owned(s.complaints, complaint), ghost(s.processor)
 //@ ensures s.complaints[complainee].answerReceived && unchanged(s.complaints[complainee].received)
 //@ ensures forall(k, 0, 256, has(s.complaints, k) && k != complainee ==> unchanged(s.complaints[k].received) && unchanged(s.complaints[k].answerReceived))
+//@ ensures [answers-untouched] forall(k, 0, 256, has(s.complaints, k) ==> unchanged(s.complaints[k].answer))
 
-//@ func (*feldmanVSSQualState).checkComplaint mode int props C08 C09
+//@ func (*feldmanVSSQualState).checkComplaint mode int props C08 C07 C09
 //@ requires qualShape(s) && c != nil && complainer < len(s.y)
 //@ assigns nothing
+//@ ensures [answer-is-checked-against-the-complainer's-public-share] result == !e2Eq(g2mulgen(c.answer), s.y[complainer])
 
-//@ func (*feldmanVSSQualState).receiveComplaint mode int props C08 C09
+//@ func (*feldmanVSSQualState).receiveComplaint mode int props C07 C08 C09
 //@ requires qualInv(s) && s.running && !s.disqualified && origin != s.myIndex && origin < s.size
 //@ assigns *s, obj(s.complaints), owned(s.complaints, complaint), ghost(s.processor)
 //@ ensures [inv] qualInv(s) && phaseKept(s)
 
-//@ func (*feldmanVSSQualState).receiveComplaintAnswer mode int props C08 C09
+//@ func (*feldmanVSSQualState).receiveComplaintAnswer mode int props C07 C08 C09
 //@ requires qualInv(s) && s.running && !s.disqualified
 //@ assigns *s, *s.feldmanVSSstate, obj(s.complaints), owned(s.complaints, complaint), ghost(s.processor)
 //@ ensures [inv] qualInv(s) && phaseKept(s)
@@ -1128,6 +1152,11 @@ package crypto
 //@ assigns ghost(kmac)
 //@ ensures [same-as-verify] typeis(pk, *pubKeyBLSBLS12381) && unbox(pk, *pubKeyBLSBLS12381) != nil && hasherOK(kmac) && len(proof) == 48 && !unbox(pk, *pubKeyBLSBLS12381).isIdentity ==> result1 == nil && result0 == (g1canon(proof) && inG1(g1pt(proof)) && pairOK2(g1pt(proof), negG2(), h2cd(hout(kmac.cfg, seqid(data))), unbox(pk, *pubKeyBLSBLS12381).point))
 
+//@ cfunc E2_is_equal nobody pure
+//@ requires p1 != nil && p2 != nil
+//@ assigns nothing
+//@ ensures result == e2Eq(*p1, *p2)
+
 //@ cfunc G2_mult_gen nobody
 //@ requires res != nil && expo != nil
 //@ assigns *res
@@ -1392,8 +1421,9 @@ package crypto
 //@ loop 2 invariant forall(k, 0, i, typeis(skShares[k], *prKeyBLSBLS12381) && typeis(pkShares[k], *pubKeyBLSBLS12381) && pkWF(unbox(pkShares[k], *pubKeyBLSBLS12381)))
 
 //@ cfunc Fr_polynomial_image props C06 C07 C09 params image y a degree x
-//@ requires image != nil && degree >= 0 && valid(a, degree+1) && (y == nil || valid(y, 1))
+//@ requires image != nil && degree >= 0 && valid(a, degree+1) && (y == nil || valid(y, 1) && obj(y) != obj(image))
 //@ assigns *image, y[0:1]
+//@ ensures [public-image-is-the-generator-times-the-image] y != nil ==> *y == g2mulJ(*image)
 //@ loop 1 invariant -1 <= i && i <= degree
 //@ loop 1 assigns *image, i
 
